@@ -26,6 +26,22 @@ def arch_components(d):
     return res
 
 
+def arch_trees(d):
+    """{config: the level tree as written, in the shape of the Lean model Arch.Tree (level name split into bare name and N)}"""
+    def walk(level):
+        m = re.fullmatch(r"\s*([A-Za-z_][A-Za-z0-9_]*)\s*\[0\.\.\s*([0-9]+)\s*\]\s*", str(level.get("name")))
+        return {"name": m.group(1) if m else str(level.get("name")).strip(), "last": int(m.group(2)) if m else None,
+                "locals": [str(l["name"]) for l in level.get("local") or []], "subs": [walk(s) for s in level.get("subtree") or []]}
+    res = {}
+    for cfg, roots in (d.get("architecture") or {}).items():
+        if roots:
+            try:
+                res[cfg] = walk(roots[0])
+            except Exception:
+                pass
+    return res
+
+
 def config_of(d, einsum):
     for b in (d.get("bindings") or {}).get(einsum, []):
         if "config" in b:
@@ -95,4 +111,17 @@ def time_info(hf, d):
                     if type(o).__name__ == "EVar" and o.name == "metrics" and len(path) == 2:
                         comp_times.append(dict(einsum=path[1], comp=path[0], text=s.expr.gen(), expr=export.expr(s.expr)))
     visit(hf.hifiber)
-    return dict(blocks=blocks, comps=comps, totals=totals, comp_times=comp_times, obs=fusion_obs(d))
+    # what the real Hardware holds: for every Einsum and every component bound there, the instance count of the component
+    # object the Collector divides by (public API: Hardware.get_component(name, einsum).get_num_instances())
+    inst = {}
+    try:
+        for e, cs in hf.hardware.bindings.get_bindings().items():
+            inst[e] = {}
+            for c in cs:
+                try:
+                    inst[e][c] = hf.hardware.get_component(c, e).get_num_instances()
+                except KeyError:
+                    pass
+    except Exception:
+        inst = None
+    return dict(blocks=blocks, comps=comps, totals=totals, comp_times=comp_times, obs=fusion_obs(d), inst=inst, arch=arch_trees(d))
